@@ -433,6 +433,23 @@ def objectPut (E : Env) (k : Key) (v : Val) (throw : Bool) : M Obj Unit := fun o
   | (true, none) =>
     (do let _ ← defineOwnProperty E k ⟨some v, some true, some true, some true⟩ throw; pure ()) o
 
+/-- builtinObjectFreeze (builtin_object.go:274) / builtinObjectSeal (l.239): the loop over propertyOrder -/
+def freezeLoop (E : Env) (onlySeal : Bool) : List Key → M Obj Unit
+  | [] => pure ()
+  | name :: rest => fun o =>
+    match lookup name o.props with
+    | some prop =>
+      let w' := if onlySeal then prop.w else false
+      let update := (!onlySeal && prop.w) || prop.c
+      if update then
+        (do let _ ← defineOwnProperty E name ⟨some prop.v, some w', some prop.e, some false⟩ true
+            freezeLoop E onlySeal rest) o
+      else freezeLoop E onlySeal rest o
+    | none => freezeLoop E onlySeal rest o
+
+def freeze (E : Env) (onlySeal : Bool) : M Obj Unit := fun o =>
+  (do freezeLoop E onlySeal (o.props.map Prod.fst); M.modify (fun (o : Obj) => { o with ext := false })) o
+
 /-! ## Array.prototype methods (builtin_array.go), generic over the object operations -/
 
 /-- what a builtin sees of its `this` object -/
@@ -535,6 +552,216 @@ def indexOf (args : List Val) : M σ Ret := fun s =>
       | none => .ok (Ret.val (.int (-1))) s
     else .ok (Ret.val (.int (-1))) s
   else .ok (Ret.val (.int (-1))) s
+
+/-- `for j := lo; j < lo+n; j++ { if p j { return j } }` -/
+def searchUp (p : Nat → Bool) : Nat → Nat → Option Nat
+  | _, 0 => none
+  | lo, n+1 => if p lo then some lo else searchUp p (lo+1) n
+
+/-- `for j := n-1; j >= 0; j-- { if p j { return j } }` -/
+def searchDown (p : Nat → Bool) : Nat → Option Nat
+  | 0 => none
+  | n+1 => if p n then some n else searchDown p n
+
+/-- builtinArrayReverse (builtin_array.go:296): one iteration of the loop -/
+def reverseStep (lower upper : Nat) : M σ Unit := fun s =>
+  let lowerExists := O.has s lower
+  let upperExists := O.has s upper
+  if lowerExists && upperExists then
+    let lowerValue := O.get s lower
+    let upperValue := O.get s upper
+    (do O.put lower upperValue; O.put upper lowerValue) s
+  else if !lowerExists && upperExists then
+    let value := O.get s upper
+    (do O.del upper; O.put lower value) s
+  else if lowerExists && !upperExists then
+    let value := O.get s lower
+    (do O.del lower; O.put upper value) s
+  else .ok () s
+
+def reverse : M σ Ret := fun s =>
+  let length := O.len s
+  let middle := length / 2
+  (do forUp (fun lower => reverseStep O lower (length - lower - 1)) 0 middle; pure (Ret.val .recv)) s
+
+/-- strings.Join -/
+def goJoin : List (List Nat) → List Nat → List Nat
+  | [], _ => []
+  | [a], _ => a
+  | a :: r, sep => a ++ sep ++ goJoin r sep
+
+/-- builtinArrayJoin (builtin_array.go:143) -/
+def join (args : List Val) : M σ Ret := fun s =>
+  let argument := argAt args 0
+  let separator := if argument ≠ .undef then E.ts argument else [44]
+  let length := O.len s
+  if length = 0 then .ok (Ret.val (.str [])) s
+  else
+    let stringList := (List.range length).map fun index =>
+      match O.get s index with
+      | .undef => []
+      | .null => []
+      | value => E.ts value
+    .ok (Ret.val (.str (goJoin stringList separator))) s
+
+/-- an argument of concat: a primitive / non-array value, or an array given by its elements as
+    [[HasProperty]]/[[Get]] see them (`none` = absent) -/
+inductive CArg where
+  | v (x : Val)
+  | arr (es : List (Option Val))
+deriving DecidableEq, Repr
+
+/-- builtinArrayConcat (builtin_array.go:64) -/
+def concat (items : List CArg) : M σ Ret := fun s =>
+  let thisPart : List (Option Val) :=
+    if O.isArr s then
+      (List.range (O.len s)).map fun index => if O.has s index then some (O.get s index) else some .undef
+    else [some .recv]
+  let rest : List (Option Val) := items.flatMap fun item =>
+    match item with
+    | .v x => [some x]
+    | .arr es => es.map fun e => match e with | some x => some x | none => some .undef
+  .ok (Ret.arr (thisPart ++ rest)) s
+
+/-- builtinArraySplice (builtin_array.go:166) -/
+def splice (args : List Val) : M σ Ret := fun s =>
+  let length : Int := O.len s
+  let start := valueToRangeIndex E (argAt args 0) length false
+  let deleteCount := if args.length > 1 then valueToRangeIndex E (argAt args 1) (length - start) true else length - start
+  let length := O.len s
+  let start := start.toNat
+  let deleteCount := deleteCount.toNat
+  let valueArray : List (Option Val) := (List.range deleteCount).map fun index =>
+    if O.has s (start + index) then some (O.get s (start + index)) else some .undef
+  let itemList := args.drop 2
+  let itemCount := itemList.length
+  (do
+    if itemCount < deleteCount then
+      let stop := length - deleteCount
+      forUp (fun index => moveStep O (index + deleteCount) (index + itemCount)) start (stop - start)
+      forDown (fun i => O.del i) (stop + itemCount) (length - (stop + itemCount))
+    else if itemCount > deleteCount then
+      forDown (fun i => moveStep O (i + deleteCount) (i + itemCount)) start (length - deleteCount - start)
+    else pure ()
+    putItems O itemList start
+    O.putLen (.int ((length : Int) + itemCount - deleteCount))
+    pure (Ret.arr valueArray)) s
+
+/-- builtinArrayLastIndexOf (builtin_array.go:487) -/
+def lastIndexOf (args : List Val) : M σ Ret := fun s =>
+  let matchValue := argAt args 0
+  let length : Int := O.len s
+  let index : Int := if args.length > 1 then toI64 E (argAt args 1) else length - 1
+  let index : Int := if 0 > index then index + length else index
+  let search (from_ : Int) : Res σ Ret :=
+    match searchDown (fun j => O.has s j && strictEquals E matchValue (O.get s j)) (from_ + 1).toNat with
+    | some j => .ok (Ret.val (.int j)) s
+    | none => .ok (Ret.val (.int (-1))) s
+  if index > length then search (length - 1)
+  else if 0 > index then .ok (Ret.val (.int (-1))) s
+  else search index
+
+/-- builtinArrayEvery (builtin_array.go:514) -/
+def every (callable : Bool) : M σ Ret := fun s =>
+  if !callable then .err .type s else
+  let length := O.len s
+  (do
+    let r ← findUp (fun index => fun s' =>
+      if O.has s' index then
+        (do let r ← O.call [O.get s' index, .int index, .recv]
+            pure (if toBool r then none else some ())) s'
+      else .ok none s') 0 length
+    match r with
+    | some _ => pure (Ret.val (.bool false))
+    | none => pure (Ret.val (.bool true))) s
+
+/-- builtinArraySome (builtin_array.go:534) -/
+def some_ (callable : Bool) : M σ Ret := fun s =>
+  if !callable then .err .type s else
+  let length := O.len s
+  (do
+    let r ← findUp (fun index => fun s' =>
+      if O.has s' index then
+        (do let r ← O.call [O.get s' index, .int index, .recv]
+            pure (if toBool r then some () else none)) s'
+      else .ok none s') 0 length
+    match r with
+    | some _ => pure (Ret.val (.bool true))
+    | none => pure (Ret.val (.bool false))) s
+
+/-- builtinArrayForEach (builtin_array.go:553) -/
+def forEach (callable : Bool) : M σ Ret := fun s =>
+  if !callable then .err .type s else
+  let length := O.len s
+  (do
+    forUp (fun index => fun s' =>
+      if O.has s' index then (do let _ ← O.call [O.get s' index, .int index, .recv]; pure ()) s'
+      else .ok () s') 0 length
+    pure (Ret.val .undef)) s
+
+/-- builtinArrayMap (builtin_array.go:569) -/
+def map (callable : Bool) : M σ Ret := fun s =>
+  if !callable then .err .type s else
+  let length := O.len s
+  (do
+    let values ← foldUp (fun index (values : List (Option Val)) => fun s' =>
+      if O.has s' index then
+        (do let r ← O.call [O.get s' index, .int index, .recv]; pure (values ++ [some r])) s'
+      else .ok (values ++ [some Val.undef]) s') 0 length []      -- values[index] = Value{} : undefined
+    pure (Ret.arr values)) s
+
+/-- builtinArrayFilter (builtin_array.go:589) -/
+def filter (callable : Bool) : M σ Ret := fun s =>
+  if !callable then .err .type s else
+  let length := O.len s
+  (do
+    let values ← foldUp (fun index (values : List (Option Val)) => fun s' =>
+      if O.has s' index then
+        let value := O.get s' index
+        (do let r ← O.call [value, .int index, .recv]
+            pure (if toBool r then values ++ [some value] else values)) s'
+      else .ok values s') 0 length []
+    pure (Ret.arr values)) s
+
+/-- builtinArrayReduce (builtin_array.go:611); `args` = the arguments after the callback -/
+def reduce (callable : Bool) (args : List Val) : M σ Ret := fun s =>
+  if !callable then .err .type s else
+  let initial := args.length > 0
+  let start := argAt args 0
+  let length := O.len s
+  if length > 0 ∨ initial then
+    let (accumulator, index) : Val × Nat :=
+      if !initial then
+        match searchUp (O.has s) 0 length with
+        | some k => (O.get s k, k + 1)
+        | none => (.undef, length)          -- `var accumulator Value` stays the zero Value
+      else (start, 0)
+    (do
+      let acc ← foldUp (fun index (accumulator : Val) => fun s' =>
+        if O.has s' index then O.call [accumulator, O.get s' index, .int index, .recv] s'
+        else .ok accumulator s') index (length - index) accumulator
+      pure (Ret.val acc)) s
+  else .err .type s
+
+/-- builtinArrayReduceRight (builtin_array.go:646) -/
+def reduceRight (callable : Bool) (args : List Val) : M σ Ret := fun s =>
+  if !callable then .err .type s else
+  let initial := args.length > 0
+  let start := argAt args 0
+  let length := O.len s
+  if length > 0 ∨ initial then
+    let (accumulator, count) : Val × Nat :=        -- count = index + 1
+      if !initial then
+        match searchDown (O.has s) length with
+        | some k => (O.get s k, k)
+        | none => (.undef, 0)
+      else (start, length)
+    (do
+      let acc ← foldDown (fun index (accumulator : Val) => fun s' =>
+        if O.has s' index then O.call [accumulator, O.get s' index, .str (dec index), .recv] s'   -- `key`, a string
+        else .ok accumulator s') 0 count accumulator
+      pure (Ret.val acc)) s
+  else .err .type s
 
 end Methods
 
